@@ -5,7 +5,10 @@ guard and loop of ex_exec), ibuf/icmd (term_push, term_read, term_cmd), ex_regio
 tok/opt/pls[EXLEN] (cutword, ec_set, ex_plus), the small tables (CapDefs2.v) and the stack buffers of the
 insert-mode helpers -- char tag[] of vi_help (^A), char ai[] of led_input (CapDefs3.v) -- on models with checked
 reads and writes.
-TIE: harness/probe_exparse.c (#includes ex.c and term.c; heap blocks of exactly EXLEN / strlen+1
+TIE: harness/probe_exparse.c (also REG(), ex_pathexpand, bufs[]) and harness/probe_cap2.c (reg_put / reg_get, markidx /
+lbuf_mark / lbuf_jump) versus the model on every register name and mark character, path expansions around the size
+of the buffer, sessions that open more buffers than there are slots;
+harness/probe_exparse.c (#includes ex.c and term.c; heap blocks of exactly EXLEN / strlen+1
 bytes; plain and ASan/UBSan builds) versus the extracted model on exhaustive short command lines
 over the alphabet of address characters, command letters and delimiters, random lines up to and
 beyond EXLEN with multi-byte text, address strings, and queue operation sequences.
@@ -30,15 +33,16 @@ ALPHA = [b'1', b'.', b'$', b"'", b'/', b'?', b'+', b',', b';', b'%', b's', b'g',
          b'!', b'=', b'@', b'&', b'|', b'\\', b'"', b' ', b'\n', b'\xc3\xa9']
 EXEC_SAFE = b"0123456789.$,;+-%' :~#^&*()\"|"
 TIMEOUT = 20
+PROBE_ENV = dict(os.environ, ASAN_OPTIONS='detect_leaks=0:exitcode=101', UBSAN_OPTIONS='halt_on_error=1:exitcode=102:print_stacktrace=1')
 
 
 def consts():
     src = open(os.path.join(vlib.COQ, 'GenConsts.v')).read()
     d = {}
-    for k in ('EXLEN', 'IBUFSZ', 'ICMDSZ'):
+    for k in ('EXLEN', 'IBUFSZ', 'ICMDSZ', 'NBUFS', 'NMARKS'):
         d[k] = int(re.search(r'Definition %s : Z := (\d+)%%Z' % k, src).group(1))
     src = open(os.path.join(vlib.COQ, 'GenCap.v')).read()
-    for k in ('TAGSZ', 'AISZ'):
+    for k in ('TAGSZ', 'AISZ', 'PATHCAP', 'REGSZ'):
         d[k] = int(re.search(r'Definition %s : Z := (\d+)%%Z' % k, src).group(1))
     return d
 
@@ -239,7 +243,7 @@ def run_probe(res, exe, what, todo, env, decode=None):
             # confirm alone
             rc2, o2, err2 = vlib.run_lines(exe, [bad], timeout=300, env=env)
             if rc2 != 0:
-                res.violation({'what': '%s: %s' % (what, signature(err2.encode()) or 'exit status %d' % rc2), 'input': [bad],
+                res.violation({'what': '%s: %s' % (what, signature(err2.encode()) or ('killed by signal %d' % -rc2 if rc2 < 0 else 'exit status %d' % rc2)), 'input': [bad],
                                'decoded': (decode(bad) if decode else repr(vlib.unhx(bad.split(' ')[-1]))[:300] if bad.split(' ')[0] != 'term' else bad[:300]),
                                'expected': 'no sanitizer report, exit status 0', 'observed': err2[-2500:]})
             out.append('CRASH')
@@ -313,9 +317,129 @@ def run_probe_part(ctx, K):
 
 
 # ---------------------------------------------------------------------------------------------
+# the small tables (CapDefs2.v): REG(), reg_put / reg_get, markidx / lbuf_mark / lbuf_jump, ex_pathexpand, bufs[]
+
+def table_requests(r, K, quick):
+    """Returns (requests for probe_exparse, requests for probe_cap2); the model driver answers both kinds."""
+    e, c2 = [], []
+    # REG(): every one-byte name, every escaped name, the empty string, a lone backslash
+    e.append('regx -')
+    for b in range(1, 256):
+        e.append('regx %02x' % b)
+        e.append('regx 5c%02x' % b)
+        if b % 16 == 0:
+            e.append('regx %02x41' % b)
+    def pre():
+        t = r.below(4)
+        if t == 0:
+            return '-'
+        if t == 1:
+            return ','.join(str(x) for x in sorted({r.choice([0, 34, 48, 49, 50, 56, 57, 65, 97, 122, 90, 255, 128 + 126]) for _ in range(r.range(1, 6))}))
+        return ','.join(str(x) for x in sorted({r.below(256) for _ in range(r.range(1, 12))}))
+    for c in range(256):
+        for lnnl in (0, 1, 2):
+            c2.append('reg %d %d %s' % (c, lnnl, pre()))
+        c2.append('get %d %s' % (c, pre()))
+        c2.append('mark %d' % c)
+    # ex_pathexpand: % # = \ blanks, paths unset / empty / short / around and beyond the size of its buffer
+    P = K['PATHCAP']
+    def path():
+        t = r.below(8)
+        if t == 0:
+            return '-'
+        if t == 1:
+            return 'e'
+        if t < 5:
+            return vlib.hx(r.choice([b'f.txt', b'a/b/c.txt', b'/x', b'dir/', '中/é.txt'.encode('utf-8'), b'a b']))
+        n = r.choice([100, 500, P - 3, P - 2, P - 1, P, P + 1, 2 * P])
+        return vlib.hx((r.choice([b'a', b'ab/', 'é'.encode('utf-8')]) * n)[:n])
+    for _ in range(400 if quick else 4000):
+        toks = [b'%', b'#', b'=', b'\\', b'\\%', b' ', b'\t', b'x', b'/', b'.c', 'é'.encode('utf-8'), b'\n', b'a' * r.choice([1, 10, 300, P - 2, P, P + 5])]
+        src = b''.join(r.choice(toks) for _ in range(r.choice([0, 1, 2, 3, 5, 8])))
+        e.append('pexp %d %s %s %s' % (r.below(2), path(), path(), vlib.hx(src)))
+    # bufs[]: open more buffers than there are slots, switch among the used ones, drop the first
+    for _ in range(60 if quick else 600):
+        ops, used = [], 0
+        for _ in range(r.range(1, 40)):
+            t = r.below(10)
+            if t < 6 or used == 0:
+                ops.append('o')
+                used = min(used + 1, K['NBUFS'])
+            elif t < 9:
+                ops.append('s%d' % r.below(used))
+            else:
+                ops.append('h')
+                used = max(0, used - 1)
+        e.append('bufs ' + ' '.join(ops))
+    return e, c2
+
+
+def oracle_table(q, a, K):
+    """Range facts on the implementation's answers (independent of the model)."""
+    w = q.split(' ')
+    if w[0] == 'regx':
+        return None if a.strip().isdigit() and 0 <= int(a) < K['REGSZ'] else 'REG() = %s is not a valid index of bufs[%d]' % (a, K['REGSZ'])
+    if w[0] == 'mark':
+        f = a.split()
+        if f and not (-1 <= int(f[0]) < K['NMARKS']):
+            return 'markidx = %s outside mark[]' % f[0]
+    if w[0] == 'pexp' and a not in ('null', '-') and len(a) // 2 >= K['PATHCAP']:
+        return 'ex_pathexpand returned %d bytes, its buffer holds %d and the terminator' % (len(a) // 2, K['PATHCAP'] - 1)
+    if w[0] == 'bufs':
+        for st in a.split():
+            if ':' in st and not (0 <= int(st.split(':')[0]) < K['NBUFS']):
+                return 'bufs_findroom answered %s' % st.split(':')[0]
+    return None
+
+
+def run_tables_part(ctx, K):
+    res = ctx.res
+    if ctx.replay:
+        rp = json.load(open(ctx.replay))
+        reqs = [x for x in rp.get('input', []) if isinstance(x, str)]
+        re_ = [x for x in reqs if x.split(' ')[0] in ('regx', 'pexp', 'bufs')]
+        r2 = [x for x in reqs if x.split(' ')[0] in ('reg', 'get', 'mark')]
+        if not re_ and not r2:
+            return
+    else:
+        re_, r2 = table_requests(ctx.rng.fork('tables'), K, ctx.quick)
+    model = ctx.model('cap')
+    nd = 0
+    for name, incl, reqs in (('exparse', ['ex', 'term'], re_), ('cap2', ['reg', 'lbuf', 'led'], r2)):
+        if not reqs:
+            continue
+        dec = lambda q: q[:300]
+        out_a = run_probe(res, vlib.build_probe(name, includes=incl, asan=True), 'probe_%s (ASan/UBSan)' % name, reqs, PROBE_ENV, dec)
+        out_c = run_probe(res, vlib.build_probe(name, includes=incl), 'probe_%s' % name, reqs, PROBE_ENV, dec)
+        out_m = None
+        if model:
+            rc, out_m, err = vlib.run_lines(model, reqs, timeout=600)
+            if rc != 0 or len(out_m) != len(reqs):
+                res.disagree({'what': 'model driver: rc=%d, %d answers for %d requests' % (rc, len(out_m), len(reqs)), 'stderr': err[-1000:]})
+                out_m = None
+        for i, q in enumerate(reqs):
+            a = out_c[i] if i < len(out_c) else 'SKIPPED'
+            b = out_a[i] if i < len(out_a) else 'SKIPPED'
+            res.evaluations += 1
+            res.count('probe ' + q.split(' ')[0])
+            if a in ('CRASH', 'SKIPPED'):
+                continue
+            if b not in ('CRASH', 'SKIPPED') and a.strip() != b.strip():
+                res.violation({'what': 'plain and sanitized builds answer differently (undefined behaviour)', 'input': [q], 'expected': a[:600], 'observed': b[:600]})
+            bad = oracle_table(q, a, K)
+            if bad:
+                res.violation({'what': bad, 'input': [q], 'expected': 'index inside the table', 'observed': a[:500]})
+            if q.split(' ')[0] in ('pexp', 'bufs'):
+                res.nontriv(q[:160])
+            if out_m is not None and a.strip() != out_m[i].strip():
+                nd += 1
+                res.disagree({'what': 'model and implementation differ (%s)' % q.split(' ')[0], 'input': [q], 'implementation': a[:600], 'model': out_m[i][:600]})
+    res.extra['table_probe_disagreements'] = nd
+
+
+# ---------------------------------------------------------------------------------------------
 # the stack buffers of the insert-mode helpers: probe_help.c versus the model (CapDefs3.v)
 
-PROBE_ENV = dict(os.environ, ASAN_OPTIONS='detect_leaks=0:exitcode=101', UBSAN_OPTIONS='halt_on_error=1:exitcode=102:print_stacktrace=1')
 
 
 def help_requests(ctx, K):
@@ -423,8 +547,8 @@ def run_help_part(ctx, K):
         r = ctx.rng.fork('ai')
         ais = [ai_case(r.fork(str(i)), K) for i in range(300 if ctx.quick else 3000)]
     todo = reqs + [a[0] for a in ais]
+    out_a = run_probe(res, probe_asan, 'probe_help (ASan/UBSan)', todo, PROBE_ENV, decode_help)      # first: its report names the buffer
     out_c = run_probe(res, probe, 'probe_help', todo, PROBE_ENV, decode_help)
-    out_a = run_probe(res, probe_asan, 'probe_help (ASan/UBSan)', todo, PROBE_ENV, decode_help)
     for q, a, b in zip(todo, out_c, out_a):
         if a != b and 'CRASH' not in (a, b) and 'SKIPPED' not in (a, b):
             res.violation({'what': 'plain and sanitized builds answer differently (undefined behaviour)', 'input': [q], 'decoded': decode_help(q), 'expected': a[:600], 'observed': b[:600]})
@@ -758,10 +882,12 @@ def run(ctx):
                                'observed': (r.err or b'')[-3000:].decode('utf-8', 'replace')})
             return
         run_probe_part(ctx, K)
+        run_tables_part(ctx, K)
         run_help_part(ctx, K)
         return
     run_corpus(ctx, exe)
     run_probe_part(ctx, K)
+    run_tables_part(ctx, K)
     run_help_part(ctx, K)
     n = int(os.environ.get('C05_STREAMS', '0') or 0) or (2500 if ctx.quick else 30000)
     sweep = sweep_cases(K)
